@@ -4,10 +4,12 @@ import (
 	"encoding/binary"
 	"errors"
 	"fmt"
+	"runtime"
 	"sort"
 	"strings"
 	"sync"
 	"testing"
+	"time"
 
 	"github.com/iotaledger/hive.go/kvstore"
 	"github.com/iotaledger/hive.go/kvstore/mapdb"
@@ -491,7 +493,7 @@ func TestSequenceCrashEnumeration(t *testing.T) {
 // TestSequenceConcurrentNext runs under the race detector: many goroutines share one Sequence, restarts in between.
 func TestSequenceConcurrentNext(t *testing.T) {
 	const check = "sequence_concurrent_next"
-	stats.Rule(check, "rapid draws 1..4 lifetimes (interval 1..8 or 1..64), each: g=2..8 goroutines call Next k=1..6 times at once on the live object, then optionally Release; abandoned otherwise. All numbers of the whole store life must be distinct, every lifetime's numbers above all earlier ones, stored mark above all of them. Runs with -race. Non-trivial = >=2 lifetimes and a lease boundary crossed while goroutines were racing")
+	stats.Rule(check, "rapid draws 1..4 lifetimes (interval 1..8 or 1..64), each: g=2..8 goroutines call Next k=1..6 times at once on the live object - in a third of the lifetimes one more goroutine calls Release at the same time and the store yields inside Set so that calls overlap the store writes -, then optionally Release; abandoned otherwise. All numbers of the whole store life must be distinct, every lifetime's numbers above all earlier ones, stored mark above all of them. Runs with -race. Non-trivial = >=2 lifetimes and a lease boundary crossed while goroutines were racing")
 	rapid.Check(t, func(rt *rapid.T) {
 		inner := mapdb.NewMapDB()
 		lifetimes := rapid.IntRange(1, 4).Draw(rt, "lifetimes")
@@ -511,7 +513,17 @@ func TestSequenceConcurrentNext(t *testing.T) {
 			k := rapid.IntRange(1, 6).Draw(rt, "k")
 			release := rapid.Bool().Draw(rt, "release")
 			desc = append(desc, fmt.Sprintf("lifetime(i=%d,g=%d,k=%d,release=%v)", interval, g, k, release))
-			seq, err := kvstore.NewSequence(inner, seqKey, interval)
+			// optionally one goroutine calls Release while the others call Next; the store then yields inside Set so
+			// that calls overlap the store write of Release / of a lease refill
+			raceRelease := rapid.IntRange(0, 2).Draw(rt, "raceRelease") == 0
+			if raceRelease {
+				desc[len(desc)-1] += "+racingRelease"
+			}
+			var store kvstore.KVStore = inner
+			if raceRelease {
+				store = &yieldingKV{KVStore: inner}
+			}
+			seq, err := kvstore.NewSequence(store, seqKey, interval)
 			if err != nil {
 				rt.Fatalf("NewSequence: %v", err)
 			}
@@ -535,6 +547,16 @@ func TestSequenceConcurrentNext(t *testing.T) {
 					}
 				}(i)
 			}
+			var relErr error
+			if raceRelease {
+				wg.Add(1)
+				go func() {
+					defer wg.Done()
+					<-start
+					runtime.Gosched()
+					relErr = seq.Release()
+				}()
+			}
 			close(start)
 			if !ctl.Within(ctl.HangTimeout, wg.Wait) {
 				stats.Violation(check, map[string]any{"program": desc, "problem": "hang"})
@@ -547,6 +569,9 @@ func TestSequenceConcurrentNext(t *testing.T) {
 				msg := fmt.Sprintf(format, args...)
 				stats.Violation(check, map[string]any{"program": desc, "problem": msg, "numbers_per_goroutine": out})
 				rt.Fatalf("%s\nprogram=%v numbers=%v", msg, desc, out)
+			}
+			if relErr != nil {
+				bad("racing Release failed on a healthy store: %v", relErr)
 			}
 			lifetimeMax, lifetimeMin, any := uint64(0), ^uint64(0), false
 			for i := range out {
@@ -600,4 +625,17 @@ func minU(a, b uint64) uint64 {
 	}
 
 	return b
+}
+
+// yieldingKV yields the processor inside Set so that other callers can reach the Sequence while a store write of
+// Release or of a lease refill is in flight.
+type yieldingKV struct{ kvstore.KVStore }
+
+func (y *yieldingKV) Set(key kvstore.Key, value kvstore.Value) error {
+	for i := 0; i < 4; i++ {
+		runtime.Gosched()
+	}
+	time.Sleep(50 * time.Microsecond)
+
+	return y.KVStore.Set(key, value)
 }
